@@ -877,6 +877,19 @@ fn run_e2e_op(w: &mut World, ctx: &Ctx, op: &Op, case: Value, drv: &mut Option<D
     sum.case(&canon, nontrivial, || case.clone());
 }
 
+/// the two character tables of the model against the standard library, over every Unicode scalar value
+fn char_tables(drv: &mut Option<Driver>, sum: &mut Summary) {
+    let Some(d) = drv else { return };
+    let rust_ws: Vec<String> = (0..=0x10FFFFu32).filter_map(char::from_u32).filter(|c| c.is_whitespace()).map(|c| (c as u32).to_string()).collect();
+    let rust_lower: Vec<String> = (0..=0x10FFFFu32).filter_map(char::from_u32).filter(|c| c.to_ascii_lowercase() != *c)
+        .map(|c| format!("{}:{}", c as u32, c.to_ascii_lowercase() as u32)).collect();
+    let (m_ws, m_lower) = (d.ask("wsset"), d.ask("lowerset"));
+    if m_ws != rust_ws.join(",") { sum.disagreement("char::is_whitespace (all scalar values) vs model isWs", json!({"kind": "char-table"}), &m_ws, &rust_ws.join(",")); }
+    if m_lower != rust_lower.join(",") { sum.disagreement("char::to_ascii_lowercase (all scalar values) vs model lowerChar", json!({"kind": "char-table"}), &m_lower, &rust_lower.join(",")); }
+    sum.branch("char-tables-exhaustive");
+    sum.case("char-tables", true, || json!({"white_space_code_points": rust_ws.len(), "lowercased_code_points": rust_lower.len()}));
+}
+
 fn run_case(c: &Case, drv: &mut Option<Driver>, sum: &mut Summary, known: &BTreeSet<String>) {
     match c {
         Case::Scalar { value } => run_scalar(value, drv, sum),
@@ -976,6 +989,7 @@ fn main() {
     }
     let t0 = std::time::Instant::now();
     let timing = std::env::var("C12_TIMING").is_ok();
+    char_tables(&mut drv, &mut sum);
     // fixed corpus first; its end-to-end cases share one world (they all carry the same frames)
     let mut shared: Option<(String, World)> = None;
     for c in corpus() {
